@@ -300,7 +300,7 @@ pub fn generate(rng: &mut Rng, prop: Prop) -> Scenario {
             s.push(Item::new("rec").int("type", t as u64).int("ver", gen::version(rng) as u64).bytes("data", &data).str("x", "none"));
         }
     }
-    let nrec = if big { rng.urange(1, 3) } else if many_small { rng.urange(0, 2) } else { rng.urange(1, 10) };
+    let nrec = if big { rng.urange(1, 3) } else if many_small { rng.urange(0, 2) } else { rng.urange(1, 10 * crate::prng::depth()) };
     for _ in 0..nrec {
         if batch >= 2 && rng.chance(2, 3) {
             gen_raw_record(rng, &mut s, big);
